@@ -21,8 +21,8 @@ class RNum (α : Type) extends Add α, Sub α, Mul α, Div α, Neg α where
   (theorems never depend on it: they assume the operands they use are set) -/
   nan : α
 
-instance {α : Type} [RNum α] {n : Nat} : OfNat α n := ⟨RNum.ofNat n⟩
-instance {α : Type} [RNum α] : OfScientific α := ⟨RNum.ofSci⟩
+instance (priority := low) {α : Type} [RNum α] {n : Nat} : OfNat α n := ⟨RNum.ofNat n⟩
+instance (priority := low) {α : Type} [RNum α] : OfScientific α := ⟨RNum.ofSci⟩
 
 class RTrans (α : Type) extends RNum α where
   pi : α
